@@ -19,6 +19,8 @@ class FCfg:
         self.line_tables = True
         self.type_units = 0.25    # chance of DWARF 5 type units (and, rarely, a skeleton unit) among the units
         self.long_chains = 0.0    # chance of an extra unit holding one chain of 15-40 links (C06 sets it)
+        self.alt = 0.0            # chance of a dwz-style supplementary file with links into it (C06 sets it)
+        self.debug_types = 0.0    # chance of DWARF 4 type units in .debug_types reached through DW_FORM_ref_sig8 links
         self.bulk = 0.2           # chance of a unit padded with a long string (offsets beyond 0x400 / 0x10000)
         self.versions = (2, 3, 4, 5)
         self.shared_abbrevs = 0.4
@@ -261,7 +263,113 @@ class ForestGen:
             self.add_ref_chains(f)
             if f.line_section and self.chance(0.6):
                 self.add_cross_unit_chain(f)
+            if cfg.alt and self.chance(cfg.alt):
+                self.add_alt(f)
+            if cfg.debug_types and self.chance(cfg.debug_types):
+                self.add_debug_types(f)
         return f
+
+    LINKS = (AT["specification"], AT["abstract_origin"])
+
+    def link_hosts(self, f, k):
+        """Up to K DIEs of F that can take one more inheritance link: [(die, link name)]."""
+        ok = [d for d in f.all_dies() if d.tag not in (TAG["compile_unit"], TAG["partial_unit"], TAG["type_unit"], TAG["skeleton_unit"], TAG["imported_unit"])
+              and not (d.attr(self.LINKS[0]) and d.attr(self.LINKS[1]))]
+        self.r.shuffle(ok)
+        out = []
+        for d in ok[:k]:
+            free = [n for n in self.LINKS if not d.attr(n)]
+            out.append((d, self.r.choice(free)))
+        return out
+
+    def small_unit(self, version, tagname, name, n):
+        dies = []
+        root = Die(TAG[tagname], [Attr(AT["name"], FORM["string"], name)])
+        budget = [n]
+        while budget[0] > 0:
+            budget[0] -= 1
+            root.children.append(self.subtree(version, self.r.randint(0, 2), [], dies, budget))
+        root.has_children = True
+        return Unit(root, version), dies
+
+    def add_alt(self, f):
+        """A supplementary file (what dwz -m produces): one or two units of its own, inheritance chains inside it,
+        and DIEs of the main file that inherit from its DIEs through DW_FORM_GNU_ref_alt / DW_FORM_ref_sup4.  Offsets
+        of the two files are unrelated number spaces; more often than not one link is arranged so that the DIE it
+        names sits at the very offset (in its file) at which the linking DIE sits in the main file."""
+        units, pool = [], []
+        for k in range(self.r.randint(1, 2)):
+            u, dies = self.small_unit(self.r.choice([v for v in self.cfg.versions if v >= 3] or [4]), self.r.choice(["partial_unit", "compile_unit"]),
+                                      b"common%d" % k, self.r.randint(2, 12))
+            units.append(u)
+            pool.append(dies)
+        alt = Forest(units)
+        self.add_ref_chains(alt)
+        alt.layout()
+        hosts = self.link_hosts(f, self.r.randint(1, 4))
+        if not hosts:
+            return
+        f.alt = alt
+        links = []
+        for d, ln in hosts:
+            form = "ref_sup4" if (d.unit is not None and d.unit.version >= 5 and self.chance(0.5)) else "GNU_ref_alt"
+            a = Attr(ln, FORM[form], self.r.choice(self.r.choice(pool)))
+            d.attrs.append(a)
+            links.append((d, a))
+            self.label("alt-link")
+        f.layout()                # offsets of the main file (a link is 4 bytes whatever it names)
+        if self.chance(0.7):
+            d, a = self.r.choice(links)
+            cands = [t for t in pool[0] if t.offset + 1 <= d.offset]
+            if cands:
+                t = self.r.choice(cands)
+                pad = d.offset - t.offset       # >= 1: a string of pad-1 bytes and its NUL
+                filler = Attr(AT["producer"], FORM["string"], b"P" * (pad - 1))
+                units[0].root.attrs.append(filler)
+                for _ in range(4):              # (a ref_udata inside the file may grow by a byte on the way)
+                    alt.layout()
+                    n = len(filler.value) + d.offset - t.offset
+                    if t.offset == d.offset or n < 0:
+                        break
+                    filler.value = b"P" * n
+                if t.offset == d.offset:
+                    a.value = t
+                    self.label("alt-link-same-offset")
+
+    def add_debug_types(self, f):
+        """DWARF 4 type units in .debug_types, whose types DIEs of the main forest name as their DW_AT_specification
+        by signature; .debug_types counts its offsets from 0 again, and one type is usually placed at the offset
+        at which the DIE that names it sits in .debug_info."""
+        hosts = self.link_hosts(f, self.r.randint(1, 3))
+        if not hosts:
+            return
+        f.layout()
+        units = []
+        place = self.chance(0.7)
+        pos = 0
+        for k, (d, ln) in enumerate(hosts):
+            u, dies = self.small_unit(4, "compile_unit", b"", self.r.randint(1, 4))
+            root = Die(TAG["type_unit"], [Attr(AT["language"], FORM["data1"], 4)], u.root.children, True)
+            t = root.children[0]
+            t.tag = TAG[self.r.choice(["structure_type", "class_type", "union_type", "enumeration_type"])]
+            t.attrs = [a for a in t.attrs if a.name not in self.LINKS + (AT["name"], AT["byte_size"], AT["declaration"], AT["sibling"])]
+            t.attrs += [Attr(AT["name"], FORM["string"], b"T%d" % k), Attr(AT["byte_size"], FORM["data1"], 4 + k)]
+            # root at pos+23: abbreviation code (1 byte), DW_AT_language (1 byte), then a name of chosen length
+            want = d.offset - (pos + 23 + 2)
+            if place and k == 0 and want >= 1:
+                root.attrs.append(Attr(AT["name"], FORM["string"], b"t" * (want - 1)))
+            tu = Unit(root, 4, types_section=True)
+            units.append(tu)
+            d.attrs.append(Attr(ln, FORM["ref_sig8"], t))
+            self.label("sig8-link")
+            tf = Forest(units)
+            tf.layout()
+            pos = tu.offset + tu.size
+        f.types = Forest(units)
+        f.types.layout()
+        f.layout()
+        if hosts[0][0].offset == units[0].root.children[0].offset:
+            self.label("sig8-link-same-offset")
 
     def add_ref_chains(self, f):
         """DW_AT_specification / DW_AT_abstract_origin chains (acyclic: references point to DIEs that
@@ -336,13 +444,18 @@ class ForestGen:
 
 # ------------------------------------------------------------------ model of the views
 
+def files_of(f):
+    """The forest and, after it, its supplementary forest: dwgrep walks the units of both (dwmods.cc: all_dwarfs)."""
+    return [f] + ([f.alt] if getattr(f, "alt", None) is not None else [])
+
+
 def raw_units(f):
-    return list(f.units)
+    return [u for g in files_of(f) for u in g.units]
 
 
 def raw_entries(f):
     out = []
-    for u in f.units:
+    for u in raw_units(f):
         out += u.dies()
     return out
 
@@ -376,7 +489,7 @@ def cooked_preorder(die, chain=()):
 
 
 def cooked_units(f):
-    return [u for u in f.units if not u.partial]
+    return [u for u in raw_units(f) if not u.partial]
 
 
 def cooked_entries(f):
